@@ -269,6 +269,10 @@ func (h *handler) patchRelationTuples(w http.ResponseWriter, r *http.Request, _ 
 		return
 	}
 	for _, d := range deltas {
+		if d == nil {
+			h.d.Writer().WriteError(w, r, herodot.ErrBadRequest.WithError("patch delta is null"))
+			return
+		}
 		if d.RelationTuple == nil {
 			h.d.Writer().WriteError(w, r, herodot.ErrBadRequest.WithError("relation_tuple is missing"))
 			return
